@@ -159,6 +159,22 @@ func (d *DEval) stmt(f *Func, s ast.Stmt, env map[types.Object]dval) dret {
 		return dret{}
 	case *ast.AssignStmt:
 		if len(st.Lhs) != len(st.Rhs) {
+			// v, ok := opaque() with the opaque entry "pathA,pathB"
+			if c, ok := st.Rhs[0].(*ast.CallExpr); ok && len(st.Rhs) == 1 {
+				if paths, ok := d.Opaque[FName(Callee(info, c))]; ok {
+					ps := strings.Split(paths, ",")
+					if len(ps) == len(st.Lhs) {
+						for i, l := range st.Lhs {
+							if id, ok := l.(*ast.Ident); ok && id.Name != "_" {
+								if o := ObjOf(info, id); o != nil {
+									env[o] = dval{s: ps[i]}
+								}
+							}
+						}
+						return dret{}
+					}
+				}
+			}
 			d.undecided("tuple assignment at %s", d.Prog.Pos(st.Pos()))
 			return dret{}
 		}
